@@ -8,6 +8,7 @@ import (
 	"fmt"
 	"runtime"
 	"sync"
+	"sync/atomic"
 )
 
 // Interface is a type that performs an operation on itself, returning any error.
@@ -23,6 +24,7 @@ type Processor struct {
 	work    chan struct{}
 	threads int
 	wg      *sync.WaitGroup
+	exited  int32 // number of workers that have finished
 }
 
 // Return a new Processor to operate the function f over the number of threads specified taking
@@ -54,7 +56,10 @@ func NewProcessor(queue chan Operator, buffer int, threads int) (p *Processor) {
 					p.out <- Result{nil, fmt.Errorf("concurrent: processor panic: %v", err)}
 				}
 				p.work <- struct{}{}
-				if len(p.work) == p.threads {
+				// The last worker to finish closes the results channel. Count
+				// exits rather than tokens: all tokens are also present before
+				// a worker has started, and two workers can see them together.
+				if atomic.AddInt32(&p.exited, 1) == int32(p.threads) {
 					close(p.out)
 				}
 				p.wg.Done()
